@@ -16,7 +16,8 @@ private helper functions, one request per line.
 time tokens: `Q` mode `num/den` (exact rationals), `F` mode 16 hex digits (IEEE double bits).
 cons tokens: `-` or `d:s,d:s,…` (insertion order).
 -/
-open InfernoVerif.Ring InfernoVerif.Shaped InfernoVerif.Record Proto
+open InfernoVerif.Ring (Err prod)
+open InfernoVerif.Shaped InfernoVerif.Record Proto
 
 def b2s (b : Bool) : String := if b then "T" else "F"
 
@@ -226,7 +227,7 @@ def dstep (st : DState) (line : String) : DState × String :=
     | none => (st, "bad-op")
   | _ =>
     match st with
-    | .idle => (st, "bad-op")
+    | .idle => (st, both "dead")        -- construction failed: nothing to operate on
     | .q m s =>
       if toks = ["dump"] then (st, "M " ++ dumpM qIO m ++ " || S " ++ dumpS qIO s) else
       match parseOp? qIO toks with
